@@ -4,9 +4,9 @@ from .. import coregen
 
 ID = "C04"
 SUITES = ["core", "init", "rot"]
-LEAN_MODULES = ["VpnCloud.Proofs.C04", "VpnCloud.Proofs.C04Session"]
+LEAN_MODULES = ["VpnCloud.Proofs.C04", "VpnCloud.Proofs.C04Session", "VpnCloud.Proofs.C07Keys"]
 THEOREMS = ["VpnCloud.Proofs.C04." + n for n in ("increment_val", "increment_wf", "encrypt_spec", "send_strictly_increasing", "seal_log_nodup", "stays_in_half", "halves_disjoint", "reconstruct_iff", "beyond_56_bits_rejected", "rotate_fresh")] + [
-    "VpnCloud.Proofs.C04Session." + n for n in ("session_seal_log_nodup", "session_halves_disjoint", "open_keeps_send", "send_monotone_between_rotations", "counter_never_wraps")]
+    "VpnCloud.Proofs.C04Session." + n for n in ("session_seal_log_nodup", "session_halves_disjoint", "open_keeps_send", "send_monotone_between_rotations", "counter_never_wraps")] + ["VpnCloud.Rot.installed_keys_fresh", "VpnCloud.Rot.different_exchanges_different_keys"]
 BATCH = 100
 SEARCH_BUDGET_S = 300
 EXPECTED_CLASSES = ["seal:d", "deliver:ok", "deliver:err", "tick:ok", "rcycle:ok"]
